@@ -61,7 +61,7 @@ class History:
         self.last_use = {}
 
     def call(self, req):
-        rep = self.w.call(req, timeout=60)
+        rep = self.w.call(req, timeout=600, idempotent=False)
         if "crash" in rep:
             raise ChildDied(rep["crash"])
         if "fatal" in rep:
